@@ -14,6 +14,11 @@ import (
 
 const maxSamples = 12
 
+// maxHashes bounds the per-process set of case hashes (memory). Beyond it new hashes are not
+// recorded, so the merged distinct count becomes a lower bound; the number of unrecorded
+// non-trivial cases is reported.
+const maxHashes = 1500000
+
 type Collector struct {
 	mu             sync.Mutex
 	prop           string
@@ -21,6 +26,7 @@ type Collector struct {
 	classes        map[string]int64
 	hashes         map[uint64]struct{}
 	byConstruction int64
+	unrecorded     int64
 	samples        []any
 	sampleEvery    int64
 	excluded       map[string]int64
@@ -60,7 +66,11 @@ func (c *Collector) Case(nontrivial bool, key ...[]byte) {
 	c.mu.Lock()
 	c.evaluations++
 	if nontrivial {
-		c.hashes[Hash64(key...)] = struct{}{}
+		if len(c.hashes) < maxHashes {
+			c.hashes[Hash64(key...)] = struct{}{}
+		} else {
+			c.unrecorded++
+		}
 	}
 	c.mu.Unlock()
 }
@@ -141,6 +151,7 @@ type shardFile struct {
 	Samples        []any            `json:"samples"`
 	WallS          float64          `json:"wall_s"`
 	NHashes        int              `json:"n_hashes"`
+	Unrecorded     int64            `json:"unrecorded_nontrivial"`
 }
 
 // Flush writes <path> (JSON) and <path>.hashes (little-endian uint64s).
@@ -155,7 +166,7 @@ func (c *Collector) Flush() {
 	sf := shardFile{
 		Property: c.prop, Evaluations: c.evaluations, ByConstruction: c.byConstruction,
 		Classes: c.classes, Excluded: c.excluded, KnownHits: c.knownHits, Notes: c.notes,
-		Samples: c.samples, WallS: time.Since(c.start).Seconds(), NHashes: len(c.hashes),
+		Samples: c.samples, WallS: time.Since(c.start).Seconds(), NHashes: len(c.hashes), Unrecorded: c.unrecorded,
 	}
 	for k := range c.exhaustive {
 		sf.Exhaustive = append(sf.Exhaustive, k)
